@@ -36,7 +36,7 @@ impl Property for C07 {
     fn components_real(&self) -> Vec<&'static str> { vec!["replication::state::ShardReplicaState::{record_write,record_delete,record_hash_write,record_hash_delete,apply_remote_delta}", "ReplicatedValue::merge", "CrdtValue::merge_with_timestamps", "lattice::{LwwRegister,GCounter,PNCounter,GSet,ORSet,VectorClock,LamportClock}::merge"] }
     fn components_stubbed(&self) -> Vec<&'static str> { vec!["network: deltas are handed over in memory in tape-chosen order (no gossip transport in this check; C06 runs that)"] }
     fn required_probes(&self) -> Vec<&'static str> { vec!["law_instance_mixed_types", "law_instance_equal_time_different_replica", "twin_order_compared", "crdt_history_group"] }
-    fn runs(&self, tier: Tier) -> u64 { match tier { Tier::Quick => 150000, Tier::Thorough => 6000000 } }
+    fn runs(&self, tier: Tier) -> u64 { match tier { Tier::Quick => 100000, Tier::Thorough => 6000000 } }
 
     fn run(&self, src: &mut Src, ctx: &RunCtx) -> RunReport {
         let mut rep = RunReport::default();
